@@ -59,7 +59,7 @@ var assumptions = []string{
 	"whether a point that ends in an error advances stateful functions is not specified: after a failed step every state reachable by aborting the left-to-right evaluation at a stateful call is accepted (candidate set)",
 	"a constant sub-expression that is ill-typed for every scope may be rejected at compile time (NewExpression) instead of at evaluation",
 	"number literals may be negative (substituted TICKscript variables); the order argument of jn/yn is a small literal (math.Jn loops n times)",
-	"AND/OR short-circuit over a right operand that is ill-typed for the point (type mismatch, missing field): the short-circuit value and an error are both accepted",
+	"AND/OR short-circuit over a right operand that is ill-typed for the point (type mismatch, missing field): when the skipped operand is a comparison, regex match or AND/OR (boolean whatever it contains) the short-circuit value is due; when its type has to be derived from the ill-typed parts (reference, unary, arithmetic, function call) the short-circuit value and an error are both accepted",
 	"excluded by construction (property C05): integer / and % by zero and strSubstring(start > stop) on entry points without recover (only Expression.Eval recovers), float->int conversion of NaN/out-of-range values",
 }
 
@@ -654,6 +654,9 @@ type outcome struct {
 	typeT   VT
 	typeSet bool
 	panic   string
+	// nonValue: Eval returned, without an error, something that is no value of the language
+	// (Go type of it)
+	nonValue string
 }
 
 func toVal(x interface{}) (Val, bool) {
@@ -692,7 +695,10 @@ func call(e stateful.Expression, sc *stateful.Scope, entry, x string) (o outcome
 		}
 		val, ok := toVal(v)
 		if !ok {
-			o.err = fmt.Sprintf("Eval returned a value of type %T", v)
+			// a result that is no value of the language (the missing marker, a time, a regex,
+			// nil) handed out WITHOUT an error: not an error report - the caller would store it
+			o.v = Val{T: tMissing}
+			o.nonValue = fmt.Sprintf("%T", v)
 			return
 		}
 		o.v = val
@@ -833,12 +839,18 @@ func match(r refOutcome, o outcome, entry, x string) (int, string) {
 	}
 	if r.e != nil || r.v.T == tMissing { // kErr or kFault (on a recovering entry point)
 		if o.err == "" {
+			if o.nonValue != "" {
+				return mNo, "error expected, Eval returned a " + o.nonValue + " without an error"
+			}
 			return mNo, "error expected"
 		}
 		return mYes, ""
 	}
 	if r.v.T == tTime || r.v.T == tRegex {
 		return mYes, "" // a time/regex result at the root: not asserted
+	}
+	if o.nonValue != "" {
+		return mNo, "Eval returned a " + o.nonValue + " without an error"
 	}
 	if r.skippedIll && o.err != "" {
 		return mYes, "" // type error in an operand that short-circuit evaluation skips: accepted both ways
